@@ -59,7 +59,7 @@ fn check(c: &Case, st: &mut Stats) -> CheckResult {
         c.q_src, c.target, rhs, c.q_unit
     );
     if let Some(v) = &c.via {
-        code.push_str(&format!("let xx_v = (xx_q -> {v}) -> {}\n", c.target));
+        code.push_str(&format!("let xx_i = xx_q -> {v}\nlet xx_v = xx_i -> {}\n", c.target));
     }
     let o = eval(&mut ctx, &code);
     if let Some((loc, msg)) = &o.panic {
@@ -88,6 +88,17 @@ fn check(c: &Case, st: &mut Stats) -> CheckResult {
     // 2. same physical quantity
     let ph = |q: &VQuantity| cat.physical(q).ok_or_else(|| Failure::new("harness", "unknown unit"));
     let (pq, pc) = (ph(&q)?, ph(&cv)?);
+    // A converted value outside the normal f64 range (subnormal: only a few significant bits;
+    // overflow) cannot be "the same within floating-point tolerance": such cases are
+    // generated, counted and left out (the extreme-unit overflow class is recorded under C05).
+    let outside = |x: f64| x != 0.0 && !(1e-290..=1e290).contains(&x.abs());
+    let (_, target_factor) = cat.unit_of_factors(&t.factors).unwrap();
+    let expected_log10 = pq.mag.abs().log10() - target_factor.abs().log10();
+    let expected_outside = q.value != 0.0 && !(expected_log10.abs() < 290.0);
+    if expected_outside || outside(cv.value) || outside(q.value) || outside(pq.mag) || outside(r.value) {
+        st.excluded("value-outside-normal-f64-range");
+        return Ok(());
+    }
     if pq.vec != pc.vec || !rel_close(pq.mag, pc.mag, 1e-9) {
         return Err(Failure::new(
             "conversion-changes-quantity",
@@ -112,6 +123,11 @@ fn check(c: &Case, st: &mut Stats) -> CheckResult {
     // 4. via an intermediate unit
     if c.via.is_some() {
         let v = raw_q(&ctx, "xx_v")?;
+        let xi = raw_q(&ctx, "xx_i")?.value;
+        if outside(xi) || (xi == 0.0 && q.value != 0.0) {
+            st.excluded("value-outside-normal-f64-range");
+            return Ok(());
+        }
         let want = pq.mag / unit_factor;
         if v.factors != t.factors || !rel_close(v.value, want, 1e-9) {
             return Err(Failure::new(
